@@ -213,7 +213,11 @@ CHECKS = {
              'empty line splits back into exactly those renderings (same number of paragraphs); line lists whose first line holds a word are stable; a license short name and text in decoded normal form '
              'render to a value that parses back to exactly them; rebuilding a paragraph from its own dictionary form reproduces '
              'that dictionary form whenever its field values are stable in the sense above (from_dict/to_dict theorem over '
-             'any number of fields). NOT proved: the composition into whole documents (render.parse.render = '
+             'any number of fields); and the document theorem: the rendering of an object whose paragraphs are header/files/license '
+             'and whose dictionary values are renderable (trimmed non-empty first line, indented non-blank continuation lines) '
+             'and stable parses back - through the C06 grammar theorem - to an object with the same paragraph types and the '
+             'same dictionary forms. NOT proved: that every object built from a DEP-5 grammar document meets those '
+             'renderability conditions, and the composition into whole documents (render.parse.render = '
              'render, equal dictionary forms after a render-parse cycle): decided by '
              'co-execution of the complete model (rendering included) with copyright.py on generated DEP-5 documents and '
              'on their renderings (second cycle), and by the executable statement on every generated document.',
